@@ -33,7 +33,10 @@ class Case:
     def ctx(self):
         if self._ctx is None:
             import concepts
-            self._ctx = concepts.Context(self.objs, self.props, self.rows)
+            rows = self.rows
+            if self.variant == 'truthy-cells':     # cells count by truthiness, whatever their type
+                rows = [[(3 if j % 2 else 2) if b else 0 for j, b in enumerate(r)] for r in rows]
+            self._ctx = concepts.Context(self.objs, self.props, rows)
         return self._ctx
 
     def fresh_ctx(self):
@@ -53,7 +56,7 @@ class Case:
         trip of the computed lattice, 'fromdict-raw' = reloaded from the serialized
         dict with the stored order reversed and raw=True."""
         if getattr(self, '_lat', None) is None:
-            if self.variant == 'fresh':
+            if self.variant in ('fresh', 'truthy-cells'):
                 self._lat = self.ctx.lattice
             elif self.variant == 'pickle':
                 import pickle
